@@ -53,6 +53,8 @@ def cases(tier, seed):
         for assign in assignments(k, tier):
             for shp in shapes[k]:
                 for nanp in ("none", "point", "slice", "coord"):
+                    if nanp == "coord" and shp[0] == 1:
+                        continue  # (would leave a dataset without any data)
                     j += 1
                     if tier == "quick" and j % 3:
                         continue
